@@ -129,12 +129,35 @@ def replay_graph(chk: Check, ctx: SchemeCtx, succ, depth: int):
                 obs = w.step(pop_, px)
                 chk.evaluations += 1
                 n += 1
+                if pop_ == "eval" and obs["err"]:
+                    hist_ = " ".join(f"{a}{b}{('/' + c) if c else ''}" for a, b, c in path + [(op, x, fk)])
+                    chk.violation(f"objective[{ctx.name}]: an evaluation without fault raises ({obs['err'].split(':')[1]}) after {'a failed evaluation' if any(p[0] == 'fail' for p in path) else 'successful evaluations'}",
+                                  f"evaluation {n} of '{hist_}' (point {px}, no fault injected) {obs['err']}; evaluated on a fresh optimizer the same point gives a penalty vector",
+                                  {"engine": "c10-path", "scheme": ctx.name, "path": path + [(op, x, fk)]})
+                    bad_path = True
+                    break
                 if pop_ == "eval":
                     ref = ctx.ref.setdefault(px, obs["pen"])
                     val = px if obs["pen"] == ref and obs["finite"] else CORRUPT
                     memo[px - 1] = val if memo[px - 1] in (0, px) else CORRUPT
+                elif obs["err"] == "cached":
+                    ref = ctx.ref.get(px)
+                    if ref is not None and (obs["pen"] != ref or not obs["finite"]):
+                        hist_ = " ".join(f"{a}{b}{('/' + c) if c else ''}" for a, b, c in path + [(op, x, fk)])
+                        chk.violation(f"objective[{ctx.name}]: a point answered without calling the model gets another penalty vector",
+                                      f"evaluation {n} of '{hist_}' (point {px}) was answered without evaluating the model and differs from the penalty vector of that point", 
+                                      {"engine": "c10-path", "scheme": ctx.name, "path": path + [(op, x, fk)]})
+                    bad_path = True       # no model call, hence no failure: the specification's fail edge was not taken; nothing to extend
+                    break
                 elif obs["err"] in ("", "no-exception"):
-                    raise MachineryError(f"{ctx.name}: the injected {pfk} fault did not make the evaluation raise")
+                    hist_ = " ".join(f"{a}{b}{('/' + c) if c else ''}" for a, b, c in path + [(op, x, fk)])
+                    chk.violation(f"objective[{ctx.name}]: a raising model evaluation returns a penalty",
+                                  f"evaluation {n} of '{hist_}': the model raised ({pfk}) inside objective_function but a penalty vector was returned",
+                                  {"engine": "c10-path", "scheme": ctx.name, "path": path + [(op, x, fk)]})
+                    bad_path = True
+                    break
+            if bad_path:
+                continue
             lp, lc, lr = ctx.codes(obs["lens"])
             dst = (tuple(memo), lp, lc, lr, n, "ok" if op == "eval" else "fail", ctx.nomp, 1)
             executed += 1
@@ -238,7 +261,9 @@ def judge_walk(chk: Check, obs, walk, ctx: SchemeCtx, where: str):
         rep = {"engine": "c10-walk", "scheme": name, "walk": walk[: i + 1], "failkind": obs.get("failkind", "exception"), "where": where}
         if st["op"] == "eval":
             if st["err"]:
-                raise MachineryError(f"{name}: evaluation raised unexpectedly: {st}")
+                chk.violation(f"objective[{name}]: an evaluation without fault raises ({where})",
+                              f"{where}: after evaluations '{hist}' the evaluation of point {st['point']} (no fault injected) {st['err']}", rep)
+                break
             ref = ctx.ref.setdefault(st["point"], st["pen"])
             if st["pen"] != ref:
                 chk.violation(f"objective[{name}]: penalty vector at point {st['point']} not reproduced ({where})",
@@ -249,8 +274,16 @@ def judge_walk(chk: Check, obs, walk, ctx: SchemeCtx, where: str):
             if st["point"] in seen_pts and seen_pts[-1] != st["point"]:
                 revisits = True
             seen_pts.append(st["point"])
+        elif st["err"] == "cached":
+            ref = ctx.ref.get(st["point"])
+            if ref is not None and st["pen"] != ref:
+                chk.violation(f"objective[{name}]: a point answered without calling the model gets another penalty vector ({where})",
+                              f"{where}: after '{hist}' point {st['point']} was answered without evaluating the model, digest {st['pen']}, reference {ref}", rep)
+            break
         elif st["err"] in ("", "no-exception"):
-            raise MachineryError(f"{name}: injected fault did not raise ({st})")
+            chk.violation(f"objective[{name}]: a raising model evaluation returns a penalty ({where})",
+                          f"{where}: after '{hist}' the model raised inside objective_function but a penalty vector was returned", rep)
+            break
     if obs["changed"]:
         chk.violation(f"objective[{name}]: evaluations change the caller's scheme: {obs['changed']}",
                       f"{where}: Optimizer(scheme).objective_function modified {obs['changed']}", {"engine": "c10-walk", "scheme": name, "walk": walk, "where": where})
@@ -345,6 +378,9 @@ def trace_selftest(chk: Check, traces, npoints):
         dup = next((e for i, e in enumerate(oks) if e["x"] in xs[:i]), None)
         if dup is None:
             continue
+        own = T.validate([copy.deepcopy(t)], npoints)
+        if own["inv"] or not own["verdict"] or own["verdict"][0] != 0:
+            continue            # only an ACCEPTED trace can show that a corruption is what gets rejected
         bad = copy.deepcopy(t)
         victim = next(e for e in bad["events"] if e["ev"] == "eval_ok" and e.get("_seq") == dup.get("_seq"))
         victim["pen"] = 999999
@@ -360,7 +396,10 @@ def trace_selftest(chk: Check, traces, npoints):
             raise MachineryError("binding self-test failed: a grown penalty list was accepted")
         chk.extra["trace_binding_selftest"] = ["corrupted penalty id rejected (Pure)", "grown _clp_penalty rejected"]
         return
-    raise MachineryError("binding self-test found no trace that revisits a point")
+    if chk.violations:
+        chk.extra["trace_binding_selftest"] = "skipped: no accepted trace revisits a point (the run already reports violations)"
+        return
+    raise MachineryError("binding self-test found no accepted trace that revisits a point")
 
 
 # ---------------------------------------------------------------------------------------------- inputs with expressions
